@@ -251,8 +251,8 @@ def oracle(spec):
 
 
 SUBCHECKS = [
-    SubCheck("views_agree", oracle, strategy=cases, examples=(250, 1200), shards=(6, 16), fork_timeout=30,
+    SubCheck("views_agree", oracle, strategy=cases, examples=(170, 1200), shards=(6, 16), fork_timeout=30,
              rule=RULE),
-    SubCheck("wide_register", oracle, strategy=lambda t: cases(t, wide=True), examples=(15, 100), shards=(8, 16), fork_timeout=120,
+    SubCheck("wide_register", oracle, strategy=lambda t: cases(t, wide=True), examples=(11, 100), shards=(8, 16), fork_timeout=120,
              rule="the same oracle on registers of 6..10 (11 thorough) qubits (at most 4 non-deterministic qubits, operators on any of the qubits, state-vector reference): numbering agrees on wide registers too"),
 ]
